@@ -899,41 +899,32 @@ Proof.
 Qed.
 
 (* Next() never runs out of fuel, and every visit consumes a key of one of the two cursors *)
-Lemma jn_tot w t j :
-  WInv w -> has w t -> (forall k, j1 j = Some k -> In k (idx (getv w t))) -> Vop w t (j2 j) ->
-  exists w2 j', joint_next w t j = Some (w2, j') /\ WInv w2 /\ has w2 t /\
-                (forall k, j1 j' = Some k -> In k (idx (getv w2 t)) /\ jidx j' <= k) /\
-                Vop w2 t (j2 j') /\
-                (jok j' = true -> (Mj w2 t j' + 1 <= Mj w t j)%nat).
+Lemma jn_rest w t c1 c2 i1 (s1' : option loc) (s2' : option Z) :
+  WInv w -> has w t -> (forall k, c1 = Some k -> In k (idx (getv w t))) -> Vop w t c2 ->
+  (s1' <> None -> c1 = Some i1) -> (s2' <> None -> ci_ok c2 = true) ->
+  (forall k1, c1 = Some k1 -> i1 <= k1) ->
+  exists w2 j',
+    match (match s1' with
+           | Some _ => match it_next (hp w) (getv w t) c1 with
+                       | Some (v', c') => Some (setv w t v', c')
+                       | None => None end
+           | None => Some (w, c1) end) with
+    | None => None
+    | Some (w1, c1') =>
+        match (match s2' with Some _ => ci_next w1 c2 | None => Some (w1, c2) end) with
+        | None => None
+        | Some (w2, c2') =>
+            Some (w2, {| j1 := c1'; j2 := c2'; jidx := i1; js1 := s1'; js2 := s2';
+                         jok := match s1', s2' with None, None => false | _, _ => true end |})
+        end
+    end = Some (w2, j') /\
+    WInv w2 /\ has w2 t /\
+    (forall k, j1 j' = Some k -> In k (idx (getv w2 t)) /\ jidx j' <= k) /\
+    Vop w2 t (j2 j') /\
+    (jok j' = true ->
+     (rem (idx (getv w2 t)) (j1 j') + orem w2 (j2 j') + 1 <= rem (idx (getv w t)) c1 + orem w c2)%nat).
 Proof.
-  intros HI Hh HC HV. destruct j as [c1 c2 ji s1 s2 ok]. cbn [j1 j2] in HC, HV.
-  unfold joint_next, Mj. cbn [j1 j2 jidx js1 js2 jok].
-  set (T := (let '(i0, s1) := match c1 with
-                             | Some k => (k, lookup k (vals (getv w t)))
-                             | None => (ji, None) end in
-             if ci_ok c2 then
-               if (ci_index c2 <? i0) || negb (match c1 with Some _ => true | None => false end)
-               then (ci_index c2, None, ci_get w c2)
-               else if i0 =? ci_index c2 then (i0, s1, ci_get w c2) else (i0, s1, None)
-             else (i0, s1, None))).
-  assert (F : forall i1 s1' s2', T = (i1, s1', s2') ->
-              (s1' <> None -> c1 = Some i1) /\ (s2' <> None -> ci_ok c2 = true) /\
-              (forall k1, c1 = Some k1 -> i1 <= k1)).
-  { intros i1 s1' s2'. unfold T. destruct c1 as [k1|].
-    - destruct (ci_ok c2).
-      + cbn [negb]. rewrite orb_false_r. destruct (ci_index c2 <? k1) eqn:E1.
-        * apply Z.ltb_lt in E1. intro E. inversion E. subst. split; [congruence|]. split; auto.
-          intros k E2. inversion E2. lia.
-        * destruct (k1 =? ci_index c2); intro E; inversion E; subst;
-            (split; [auto|]; split; [auto; congruence|]; intros k E2; inversion E2; lia).
-      + intro E; inversion E; subst.
-        split; [auto|]. split; [congruence|]. intros k E2; inversion E2; lia.
-    - destruct (ci_ok c2).
-      + cbn [negb]. rewrite orb_true_r. intro E. inversion E. subst.
-        split; [congruence|]. split; auto. intros k E2. discriminate.
-      + intro E. inversion E. subst. split; [congruence|]. split; [congruence|]. intros k E2. discriminate. }
-  fold T. destruct T as [[i1 s1'] s2'] eqn:ET. destruct (F i1 s1' s2' eq_refl) as (F1 & F2 & F3). clear F.
-  cbv beta iota zeta.
+  intros HI Hh HC HV F1 F2 F3.
   (* first the receiver's iterator ... *)
   assert (S1 : exists wa c1',
             (match s1' with
@@ -950,8 +941,8 @@ Proof.
     - assert (E1 : c1 = Some i1) by (apply F1; congruence). subst c1.
       destruct (it_next_tot (hp w) (getv w t) i1 (WInv_getv w t HI) (HC i1 eq_refl))
         as (v' & c' & N & I' & Rm & Cu).
-      rewrite N. exists (setv w t v'), c'. split; auto. split; [apply WInv_setv; auto|].
-      split; [apply has_setv; auto|]. split; auto. rewrite getv_setv_eq by auto.
+      rewrite N. exists (setv w t v'), c'. split; [auto|]. split; [apply WInv_setv; auto|].
+      split; [apply has_setv; auto|]. split; [auto|]. rewrite getv_setv_eq by auto.
       split; [intros k E; apply Cu in E; split; [tauto|lia]|].
       destruct (Vop_setv_t w t c2 v' HV) as [V1 V2]. split; [exact V1|]. split; [exact V2|]. simpl. lia.
     - exists w, c1. split; [auto|]. split; [auto|]. split; [auto|]. split; [auto|].
@@ -962,10 +953,37 @@ Proof.
   - destruct (ci_next_tot wa t c2 Ia Va) as (w2 & c2' & N2 & I2 & V2 & O2 & G2 & H2 & Hh2);
       [apply F2; congruence|].
     rewrite N2. eexists. eexists. split; [reflexivity|]. cbn [j1 j2 jidx js1 js2 jok].
-    split; auto. split; auto. rewrite G2. split; auto. split; auto. intros _. lia.
+    split; [auto|]. split; [auto|]. rewrite G2. split; [auto|]. split; [auto|]. intros _. lia.
   - eexists. eexists. split; [reflexivity|]. cbn [j1 j2 jidx js1 js2 jok].
-    split; auto. split; auto. split; auto. split; auto.
+    split; [auto|]. split; [auto|]. split; [auto|]. split; [auto|].
     destruct s1' as [l|]; [intros _; lia|discriminate].
+Qed.
+Lemma jn_tot w t j :
+  WInv w -> has w t -> (forall k, j1 j = Some k -> In k (idx (getv w t))) -> Vop w t (j2 j) ->
+  exists w2 j', joint_next w t j = Some (w2, j') /\ WInv w2 /\ has w2 t /\
+                (forall k, j1 j' = Some k -> In k (idx (getv w2 t)) /\ jidx j' <= k) /\
+                Vop w2 t (j2 j') /\
+                (jok j' = true -> (Mj w2 t j' + 1 <= Mj w t j)%nat).
+Proof.
+  intros HI Hh HC HV. destruct j as [c1 c2 ji s1 s2 ok]. cbn [j1 j2] in HC, HV.
+  unfold joint_next, Mj. cbn [j1 j2 jidx js1 js2 jok].
+  destruct c1 as [k1|].
+  - destruct (ci_ok c2) eqn:Ok.
+    + cbn [negb]. rewrite orb_false_r. destruct (ci_index c2 <? k1) eqn:E1.
+      * apply Z.ltb_lt in E1.
+        apply (jn_rest w t (Some k1) c2 (ci_index c2) None (ci_get w c2)); auto; try congruence;
+          try (intros k E; inversion E; lia).
+      * destruct (k1 =? ci_index c2).
+        -- apply (jn_rest w t (Some k1) c2 k1 (lookup k1 (vals (getv w t))) (ci_get w c2));
+             auto; try congruence; try (intros k E; inversion E; lia).
+        -- apply (jn_rest w t (Some k1) c2 k1 (lookup k1 (vals (getv w t))) None);
+             auto; try congruence; try (intros k E; inversion E; lia).
+    + apply (jn_rest w t (Some k1) c2 k1 (lookup k1 (vals (getv w t))) None); auto; try congruence;
+        try (intros k E; inversion E; lia).
+  - destruct (ci_ok c2) eqn:Ok.
+    + cbn [negb]. rewrite orb_true_r.
+      apply (jn_rest w t None c2 (ci_index c2) None (ci_get w c2)); auto; congruence.
+    + apply (jn_rest w t None c2 ji None None); auto; congruence.
 Qed.
 
 Lemma set_loop_tot t f : forall w j,
@@ -987,10 +1005,7 @@ Proof.
       destruct (jn_tot w1 t j I1 H1 C1 V1) as (w2 & j' & N & I2 & H2 & C2 & V2 & M2).
       rewrite N. apply IH; auto. intro Ok'. specialize (M2 Ok'). lia. }
     destruct (js1 j) as [l|].
-    + apply W; auto.
-      * intros k E. apply HC in E. tauto.
-      * apply Vop_seth. auto.
-      * unfold Mj. destruct (Vop_seth w t (j2 j) (hset (hp w) l (jval (js2 j))) HV) as [_ ->]. auto.
+    + apply W; [exact HI | exact Hh | intros k E; apply HC in E; tauto | exact HV | reflexivity].
     + destruct (at_ (hp w) (getv w t) (jidx j)) as [[[h' v'] l]|] eqn:A; [|eauto].
       assert (HIt : Inv (getv w t)) by (apply WInv_getv; auto).
       assert (Ix : idx v' = idx (getv w t) \/ idx v' = kins (jidx j) (idx (getv w t))).
